@@ -5,9 +5,12 @@
 D=$(cd "$1" && pwd); WT=/tmp/wt_confirm; EXTRA=${2:+:$2}
 git -C $WT checkout -q -- . && git -C $WT clean -fdq
 cd $WT
-PYTHONPATH=$WT$EXTRA /venv/bin/python $D/demo.py > /tmp/confirm_without.log 2>&1; A=$?
+# demos written in an agent's own worktree may assert that xgcm is imported from there: point them at this worktree
+PID=$(echo "$D" | sed -n 's#.*_\(C[0-9][0-9]\)/.*#\1#p')
+sed "s#/tmp/wt_$PID#$WT#g" $D/demo.py > /tmp/confirm_demo.py
+PYTHONPATH=$WT$EXTRA /venv/bin/python /tmp/confirm_demo.py > /tmp/confirm_without.log 2>&1; A=$?
 git -C $WT apply $D/patch.diff || { echo "patch does not apply"; exit 2; }
-PYTHONPATH=$WT$EXTRA /venv/bin/python $D/demo.py > /tmp/confirm_with.log 2>&1; B=$?
+PYTHONPATH=$WT$EXTRA /venv/bin/python /tmp/confirm_demo.py > /tmp/confirm_with.log 2>&1; B=$?
 /venv/bin/python -m pytest -q -p no:cacheprovider -n 16 xgcm 2>&1 | tail -1 > /tmp/confirm_suite.log
 git -C $WT checkout -q -- .
 echo "demo without patch: exit $A ; with patch: exit $B ; suite with patch: $(cat /tmp/confirm_suite.log)"
